@@ -189,16 +189,20 @@ def interruption_cases(pid, seed, tier, *, K=(10, 16), kinds=None, dev_faults=0.
             add_device_faults(rng, c, dv, k=rng.choice([1, 1, 2]))
         yield c
     if dev_faults > 0:
-        # two extra cases per plan: one fault, alone, in a method the engine calls on its own account (clean-up,
-        # close_run, pause bookkeeping) at an occurrence the fault-free run reached
-        seen = {}
-        for e in dv.of("dev"):
-            if "occ" in e.d and e.d["dev"] != "sigS":
-                seen[(e.d["dev"], e.d["method"])] = max(seen.get((e.d["dev"], e.d["method"]), 0), e.d["occ"] + 1)
-        eng = [(d, m, k) for (d, m), k in sorted(seen.items()) if m in ENGINE_SIDE and m in FAULT_METHODS.get(base["devices"][d]["kind"], [])]
-        for d, m, k in rng.sample(eng, min(2, len(eng))):
-            c = copy.deepcopy(base)
-            occ = rng.randrange(0, k)
-            c["variant"] = f"engine-side-{d}.{m}#{occ}"
-            c["devices"][d].setdefault("faults", {})[f"{m}#{occ}"] = {"kind": "raise", "exc": "RuntimeError"}
-            yield c
+        yield from engine_side_cases(rng, base, dv)
+
+
+def engine_side_cases(rng, base, dv, k=2):
+    """k extra cases per plan: one fault, alone, in a method the engine calls on its own account (clean-up,
+    close_run, pause bookkeeping) at an occurrence the fault-free run reached."""
+    seen = {}
+    for e in dv.of("dev"):
+        if "occ" in e.d and e.d["dev"] != "sigS":
+            seen[(e.d["dev"], e.d["method"])] = max(seen.get((e.d["dev"], e.d["method"]), 0), e.d["occ"] + 1)
+    eng = [(d, m, n) for (d, m), n in sorted(seen.items()) if m in ENGINE_SIDE and m in FAULT_METHODS.get(base["devices"][d]["kind"], [])]
+    for d, m, n in rng.sample(eng, min(k, len(eng))):
+        c = copy.deepcopy(base)
+        occ = rng.randrange(0, n)
+        c["variant"] = f"engine-side-{d}.{m}#{occ}"
+        c["devices"][d].setdefault("faults", {})[f"{m}#{occ}"] = {"kind": "raise", "exc": "RuntimeError"}
+        yield c
